@@ -393,6 +393,7 @@ def _real_models():
     import torchtree.evolution.coalescent as co
     import torchtree.distributions.gmrf as gm
     import torchtree.evolution.bdsk as bd
+    import torchtree.evolution.birth_death as bdc
     import torchtree.distributions.scale_mixture as sm
     import torchtree.distributions.bayesian_bridge as bb
     import torchtree.distributions.ctmc_scale as cs
@@ -429,6 +430,8 @@ def _real_models():
         "WeibullSiteModel.probabilities": (("wshape", "winv", "wmu"), lambda v: _SiteEval(v, "probabilities")),
         "BDSKModel": (("heights", "R", "delta", "s", "rho", "origin"),
                       lambda v: bd.BDSKModel("m", tm(v), P("R", v), P("delta", v), P("s", v), rho=P("rho", v), origin=P("origin", v))),
+        "BirthDeathModel": (("heights", "R", "delta", "s", "rho", "origin"),
+                            lambda v: bdc.BirthDeathModel("m", tm(v), P("R", v), P("delta", v), P("s", v), P("rho", v), P("origin", v))),
         # shrinkage / scale priors: hierarchical by construction (a global scale with its own prior above a field)
         "ScaleMixtureNormal": (("field", "tau", "local3"), lambda v: sm.ScaleMixtureNormal("m", P("field", v), 0.0, P("tau", v), P("local3", v))),
         "ScaleMixtureNormal.slab": (("field", "tau", "local3", "slab"), lambda v: sm.ScaleMixtureNormal("m", P("field", v), 0.0, P("tau", v), P("local3", v), P("slab", v))),
